@@ -13,11 +13,11 @@ import (
 func init() { Scenarios["cgroup"] = cgroupScenario }
 
 type cgFn struct {
-	gen        int   // index into member.gens
-	startStep  int   // when Start returned
+	gen        int // index into member.gens
+	startStep  int // when Start returned
 	startAt    time.Duration
-	lateStart  bool  // started after the generation had already ended
-	doneStep   int   // when its ctx was observed done (0 = never)
+	lateStart  bool // started after the generation had already ended
+	doneStep   int  // when its ctx was observed done (0 = never)
 	doneAt     time.Duration
 	exitStep   int
 	exitAt     time.Duration
@@ -38,16 +38,16 @@ type cgGen struct {
 }
 
 type cgMember struct {
-	k         int
-	clientID  string
-	cg        *kafka.ConsumerGroup
-	gens      []*cgGen
-	closeInv  int
+	k          int
+	clientID   string
+	cg         *kafka.ConsumerGroup
+	gens       []*cgGen
+	closeInv   int
 	closeInvAt time.Duration
-	closeRet  int
+	closeRet   int
 	closeRetAt time.Duration
-	closed    bool
-	nextErrs  []error
+	closed     bool
+	nextErrs   []error
 	afterClose error
 }
 
